@@ -536,4 +536,9 @@ EXPLANATION = (
     'forms and compared with RFC 6762 section 10 (100 % / 50 % / 25 % of TTL). Not decided: agreement with the reference model over '
     'all histories [X].'
 )
+EXPLANATION_ADDENDUM = (
+    ' C05.TWOINDEX also requires every cache index to keep a collection of records per key. C05.REFRESH also decides the flush-set table (every record with the cache-flush bit feeds it, whatever its TTL) and that the pointer floor precedes every use of the record. C05.PURGE also requires the purge report to be re-iterable for every listener.'
+)
+EXPLANATION = EXPLANATION + EXPLANATION_ADDENDUM
+
 RULES = [kv, twoindex, keys, own, purge, refresh, lifetime]
